@@ -130,10 +130,12 @@ func readBatch(c *fw.Ctx, id, engine string, setup []bt.Op, tag func(*bt.Op) str
 	h := w.Hash()
 	c.State(h)
 	n := 0
+	var earlier []bt.Op
 	gen(func(o bt.Op) {
 		if w.drv.Poisoned {
 			return
 		}
+		defer func() { earlier = append(earlier, o) }()
 		n++
 		if n == 1 || n == 37 {
 			c.Sample(map[string]interface{}{"engine": engine, "setup": bt.OpsString(setup), "request": o.String()})
@@ -144,8 +146,15 @@ func readBatch(c *fw.Ctx, id, engine string, setup []bt.Op, tag func(*bt.Op) str
 		c.Trace(1)
 		c.Trans(1)
 		if m != "" {
+			sig := fmt.Sprintf("%s:%s:%s:%s", id, engine, cl, tag(&o))
 			sc := seqCase{Engine: engine, Setup: setup, Ops: []bt.Op{o}}
-			c.Violate(fmt.Sprintf("%s:%s:%s:%s", id, engine, cl, tag(&o)), m, sc, func() string {
+			if s1, _ := replaySeq(c, id, sc, tag); s1 != sig && len(earlier) > 0 {
+				// on a fresh instance the request is answered correctly: what went wrong depends on the read-only requests
+				// sent before it (something they should not have left behind); the artefact carries them all
+				sc = seqCase{Engine: engine, Setup: setup, Ops: append(append([]bt.Op(nil), earlier...), o), ReadsOnly: true}
+				m = fmt.Sprintf("after %d earlier read-only requests on the same table (alone, on a fresh instance, the request is answered correctly): %s", len(earlier), m)
+			}
+			c.Violate(sig, m, sc, func() string {
 				s, _ := replaySeq(c, id, sc, tag)
 				return s
 			})
